@@ -51,7 +51,7 @@ def missingColumn (spec : ColSpec) (n : String) (nrows : Nat) : Option Column :=
   let fill : Val := spec.default.getD .null
   let raw := List.replicate nrows fill
   match spec.dtype with
-  | none => some ⟨n, (fill.kind?).getD .str, raw⟩
+  | none => none       -- `None.try_coerce`: the code leaks an AttributeError
   | some t =>
     if valFits t fill then some ⟨n, t, raw⟩ else
     -- `astype(bool)` turns a missing value into `False`
@@ -173,7 +173,7 @@ def validateLazy (T : ScopeTable) (d : Depth) (S : Schema) (D : Frame) : Validat
     if es.isEmpty then .ok P
     else if S.dropInvalid then
       -- every collected error must carry row-level failure cases
-      if es.any (fun e => e.cells.isEmpty) then .crash else .ok (dropRows P (failingRows es))
+      if es.any (fun e => e.cells.isEmpty) then .errors es else .ok (dropRows P (failingRows es))
     else .errors es
 
 end Pandera
